@@ -29,6 +29,10 @@ def pair(spec):
     if ra is None:
         return {"skip": True, "spec": spec, "why": a["err"]}
     s = obs.scale
+    if not (np.isfinite(s) and 1e-6 <= s <= 1e6):
+        # the property quantifies over scalers returning a finite s > 0 (the packaged scaler returns inf when the
+        # projected gradient at x0 vanishes)
+        return {"skip": True, "spec": spec, "why": f"scaler returned {s}"}
     log_a = []
     for e in obs.events:
         if e["e"] == "EvalF" and not e["exc"]:
